@@ -336,11 +336,11 @@ func c20(c *Ctx) {
 
 	// conflicts
 	type conflict struct {
-		key, a, b, cat   string
-		crash            bool
-		wpos, rpos       string
-		wfn, rfn         string
-		reflective       bool
+		key, a, b, cat string
+		crash          bool
+		wpos, rpos     string
+		wfn, rfn       string
+		reflective     bool
 	}
 	found := map[string]*conflict{}
 	catOf := func(a access) string {
